@@ -307,7 +307,7 @@ func addEval(c *RunCtx, b *Batch, sp *EvalSpec) {
 func init() {
 	register(&PropDef{
 		ID:   "C01",
-		Rule: "random typed expression trees (all operator families and aliases, if, literals, lists, registered operators incl. zero-operand and failing ones, failing variables, wrong-typed operands, and/or with 0..127 operands) rendered to source, compiled with all optimisations disabled, evaluated under random bindings with a recording fetcher; Go's result/error and its ordered fetch/operator-call effects are compared with the reference semantics `sem` of the model (and the model's compile/run with Go's exported program); every Eval case is repeated through the library's own context (NewCtxFromVars) with the same values bound as int, int32, int8, uint8, uint64, []int, []int32; string variables against string literals and a string constant of the configuration; list-valued variables under in/overlap and as results; non-trivial = at least one effect or more than 3 nodes; distinct = distinct (source, config, binding)",
+		Rule: "random typed expression trees (all operator families and aliases, if, literals, lists, registered operators incl. zero-operand and failing ones, failing variables, wrong-typed operands, and/or with 0..127 operands) rendered to source, compiled with all optimisations disabled, evaluated under random bindings with a recording fetcher; Go's result/error and its ordered fetch/operator-call effects are compared with the reference semantics `sem` of the model (and the model's compile/run with Go's exported program); every Eval case is repeated through the library's own context (NewCtxFromVars) with the same values bound as int, int32, int8, uint8, uint64, []int, []int32; string variables against string literals and a string constant of the configuration; list-valued variables under in/overlap and as results; in a third of all Eval cases (of every property) the configuration object has compiled a source with opposite `;;;;` directives before; non-trivial = at least one effect or more than 3 nodes; distinct = distinct (source, config, binding)",
 		Assumptions: []string{"fetcher and registered operators are deterministic functions of their arguments (the harness's recording fetcher and test operators are)",
 			"errors are compared by class and identity of the user error, not by message text"},
 		Behav: []int{5, 2, 15}, Fidelity: []int{3, 4, 8, 10}, Ignore: []int{50, 1, 6, 7}, CodeText: evalCodeText,
